@@ -334,7 +334,14 @@ func runMore(a *Analyzer, r *Results) {
 					if cc.Method.Name() != g.store {
 						continue
 					}
-					ok2 := mustReach(in, func(i2 ssa.Instruction) bool { return callReaches(a, i2, "interfaces.Storage", g.gate) })
+					gatePred := func(i2 ssa.Instruction) bool { return callReaches(a, i2, "interfaces.Storage", g.gate) }
+					ok2 := false
+					if call, isCall := in.(*ssa.Call); isCall {
+						// (a helper that stores and returns hands the obligation to its callers)
+						ok2, _ = mustReachAfterSuccess(a, call, gatePred)
+					} else {
+						ok2 = mustReach(in, gatePred)
+					}
 					r.Check("L9", props("C05", "C11"), "every store into a message log is followed on every path by a re-evaluation of the quorum that log feeds (otherwise the message that completes the quorum is never acted upon)", shortName(f)+"|"+g.store, a.P.InstrPos(in), ok2,
 						"a path from "+g.store+" returns without evaluating the "+g.text, "P")
 				}
@@ -433,6 +440,36 @@ func runMore(a *Analyzer, r *Results) {
 		reads := a.readsOf(f)
 		if !(reads["state.State.height"] && reads["state.State.view"]) {
 			continue
+		}
+		// read events of f: its own field reads, and each call with what the callee reads. A method whose only read event
+		// is one call that covers both fields delegates the snapshot to that callee (which is judged itself).
+		{
+			nEvents, coversBoth := 0, false
+			for _, b := range f.Blocks {
+				for _, in := range b.Instrs {
+					switch x := in.(type) {
+					case *ssa.UnOp:
+						if fa, ok := x.X.(*ssa.FieldAddr); ok {
+							if l := a.fieldLoc(fa); l == "state.State.height" || l == "state.State.view" {
+								nEvents++
+							}
+						}
+					case ssa.CallInstruction:
+						if sc := x.Common().StaticCallee(); sc != nil && sc.Blocks != nil {
+							rr := a.readsOf(sc)
+							if rr["state.State.height"] || rr["state.State.view"] {
+								nEvents++
+								if rr["state.State.height"] && rr["state.State.view"] {
+									coversBoth = true
+								}
+							}
+						}
+					}
+				}
+			}
+			if nEvents == 1 && coversBoth {
+				continue
+			}
 		}
 		locked := false
 		if len(f.Blocks) > 0 {
